@@ -135,6 +135,21 @@ def gen_desc(rng, sane=False, huge=True):
     return d
 
 
+def gen_desc_huge(rng):
+    """a well-formed image whose only damage is one PT_INTERP entry with an offset or size at a machine-word boundary
+    (what a file object cannot seek to / read): the error path of the interpreter lookup, not of the header"""
+    for _ in range(8):
+        d = gen_desc(rng, sane=True)
+        if d["phs"] and d["phentsize"] >= (32 if d["cls"] == 1 else 56):
+            break
+    if d["phs"]:
+        p = rng.choice(d["phs"])
+        p["type"] = 3
+        big = [2**64 - 1, 2**63, 2**63 - 1, 2**63 + 1] if d["cls"] == 2 else [2**32 - 1, 2**31, 2**31 - 1]
+        p[rng.choice(["offset", "filesz"])] = rng.choice(big)
+    return d
+
+
 def exe_for(kind, rng=None):
     """a minimal executable description with a given ABI: 'x86_64', 'i686', 'armhf', 'armel', 'aarch64', …"""
     table = {
